@@ -326,7 +326,7 @@ pub struct ShareOut {
 pub fn run_c14(args: &Args) -> i32 {
     let t0 = std::time::Instant::now();
     let (n, dist_n) = match args.tier {
-        Tier::Quick => (args.cases.unwrap_or(10000), 40_000),
+        Tier::Quick => (args.cases.unwrap_or(40000), 40_000),
         Tier::Thorough => (args.cases.unwrap_or(400_000), 400_000),
     };
     let mut counters: BTreeMap<String, u64> = BTreeMap::new();
